@@ -8,6 +8,8 @@ at any earlier evolution, and from a database already on migrations; alone and n
 evolution-only app; the recorded/executed migrations are compared with the Lean model and the
 property is checked on the real signals, recorder, stored signature and a second run.
 """
+import json
+
 from .. import dbrig, evorig, sigs
 
 
@@ -127,6 +129,7 @@ def run(ctx):
     late_model_cases(ctx)
     later_migration_cases(ctx)
     unsimulatable_handover_cases(ctx)
+    fresh_migration_app_cases(ctx)
     combos = [(k, m, s, o) for k in (0, 1, 2) for m in (1, 2, 3) for s in range(0, m + 1) for o in (False, True)]
     ctx.rng.shuffle(combos)
     if quick:
@@ -429,6 +432,57 @@ def unsimulatable_handover_cases(ctx):
         if a is None or a.upgrade_method != 'migrations' or sorted(set(a.applied_migrations or [])) != sorted(set(rec)):
             ctx.fail(None, 'after the hand-over the stored signature says upgrade_method=%r applied_migrations=%r, the '
                      'recorder has %r' % (rep['stored_upgrade_method'], rep['stored_applied_migrations'], sorted(set(rec))), rep)
+
+
+def fresh_migration_app_cases(ctx):
+    """the hand-over next to a migration-managed app that is installed in the very same run (tools/vlib/c10_worker.py,
+    own process: the project then has such an app): the run also has migrations to apply before the evolutions; the
+    migrations named as covered are recorded once and not executed, the rest is executed in order, the stored
+    signature lists what the migration table has, the same release once more does nothing"""
+    import os
+    import subprocess
+    import sys
+    import tempfile
+    here = os.path.dirname(os.path.dirname(os.path.abspath(__file__)))
+    fd, out = tempfile.mkstemp(prefix='devo-c10-', suffix='.json')
+    os.close(fd)
+    try:
+        p = subprocess.run([sys.executable, '-B', os.path.join(here, 'c10_worker.py'), out],
+                           stdout=subprocess.PIPE, stderr=subprocess.STDOUT, timeout=max(60, ctx.time_left()))
+        if p.returncode != 0:
+            raise RuntimeError('C10 worker failed: %s' % p.stdout.decode()[-600:])
+        results = json.load(open(out))
+    finally:
+        if os.path.exists(out):
+            os.unlink(out)
+    for r in results:
+        k, m, s_ = r['params']
+        rep = {'scenario': 'hand-over next to the first installation of a migration-managed app', 'k': k, 'm': m, 's': s_,
+               'observed': r}
+        ctx.count('fresh_migration_app_cases')
+        ctx.case({'scenario': rep['scenario'], 'k': k, 'm': m, 's': s_}, nontrivial=True, sample_cap=2)
+        if 'rig_error' in r:
+            ctx.fail(None, 'the hand-over next to a fresh migration-managed app cannot be run: %s' % r['rig_error'], rep)
+            continue
+        bad = [x for x in r['runs'] if not x['ok']]
+        if bad:
+            ctx.fail(None, '%s fails: %s' % (bad[0]['what'], bad[0]['error']), rep)
+            continue
+        names = r['expected_vapp_rows']
+        if sorted(r['vapp_rows']) != sorted(names):
+            ctx.fail(None, 'after the hand-over next to a fresh migration-managed app django_migrations has %r for the '
+                     'app, expected each of %r once' % (r['vapp_rows'], names), rep)
+        executed = [x for x in r['runs'][1]['applying_migration'] if x.startswith("('vapp'")]
+        want = ["('vapp', '%s')" % n for n in names[s_:]]
+        if executed != want:
+            ctx.fail(None, 'the hand-over executed %r, expected exactly the migrations after the covered prefix, in '
+                     'order: %r' % (executed, want), rep)
+        st = r['stored_vapp']
+        if st is None or st['upgrade_method'] != 'migrations' or st['applied_migrations'] != sorted(set(r['vapp_rows'])):
+            ctx.fail(None, 'stored signature says %r, the migration table has %r' % (st, r['vapp_rows']), rep)
+        if r['runs'][2]['applying_migration'] or r['vapp_rows_after_second_run'] != r['vapp_rows']:
+            ctx.fail(None, 'the same release once more is not a no-op: applied %r, rows %r'
+                     % (r['runs'][2]['applying_migration'], r['vapp_rows_after_second_run']), rep)
 
 
 def relabelled_app_probe(ctx):
